@@ -14,6 +14,7 @@ import (
 	"go/printer"
 	"go/token"
 	"os"
+	"sort"
 	"strconv"
 	"strings"
 )
@@ -146,8 +147,13 @@ const automataShape = `func() map[string]*fsm {
 }()`
 
 func main() {
+	canon := false
+	if len(os.Args) == 3 && os.Args[1] == "-canon" {
+		canon = true
+		os.Args = append(os.Args[:1], os.Args[2:]...)
+	}
 	if len(os.Args) != 2 {
-		fail("usage: gofsm2v <pred_fsm.go>")
+		fail("usage: gofsm2v [-canon] <pred_fsm.go>")
 	}
 	fset := token.NewFileSet()
 	file, err := parser.ParseFile(fset, os.Args[1], nil, 0)
@@ -253,6 +259,22 @@ func main() {
 	}
 	if !haveAutomata {
 		fail("no `automata` variable")
+	}
+	if canon {
+		// same format as fsmdump -canon: one line per registered table, sorted by key
+		var lines []string
+		for _, r := range registered {
+			t, ok := tables[r]
+			if !ok {
+				fail("automata registers %s, which is not a translated table", r)
+			}
+			lines = append(lines, fmt.Sprintf("%q %d %q %q %v", t.name, t.start, t.states, t.labels, t.edges))
+		}
+		sort.Strings(lines)
+		for _, l := range lines {
+			fmt.Println(l)
+		}
+		return
 	}
 	var b strings.Builder
 	b.WriteString("(* Generated by gofsm2v from pkg/cmd/pred_fsm.go — do not edit. *)\n")
